@@ -112,25 +112,43 @@ def read_dump(path):
 
 
 # ------------------------------------------------------------------------------------------------
+ALL_BIN = {"*", "+", "==", "&&", "||", "and", "or", "contains", "not contains"}
+ALL_UN = {"-", "!", "^", "*", "&", "<-", "+", "not"}
+
+
 def bounds(ctx):
+    """One or two model-checking configurations; the case set is the union of their state spaces."""
     if ctx.quick:
-        return {"BinOps": {"*", "+", "==", "and", "||"}, "UnOps": {"-", "<-", "not"}, "MaxDepth": 3, "StmtDepth": 2, "FullSib": False}
-    return {"BinOps": {"*", "+", "==", "&&", "||", "and", "or", "contains", "not contains"},
-            "UnOps": {"-", "!", "^", "*", "&", "<-", "+", "not"}, "MaxDepth": 3, "StmtDepth": 2, "FullSib": True}
+        return [{"BinOps": {"*", "+", "==", "and", "||"}, "UnOps": {"-", "<-", "not"}, "MaxDepth": 3, "StmtDepth": 2, "FullSib": False}]
+    return [{"BinOps": {"*", "+", "==", "&&", "||", "and", "contains"}, "UnOps": {"-", "!", "*", "&", "<-", "not"},
+             "MaxDepth": 3, "StmtDepth": 2, "FullSib": True},            # every tree of depth <= 3
+            {"BinOps": ALL_BIN, "UnOps": ALL_UN, "MaxDepth": 3, "StmtDepth": 2, "FullSib": False}]   # every operator
 
 
 def model_check(ctx):
-    wd = ctx.stage("mc", FAMS)
-    consts = bounds(ctx)
-    rig.write_cfg(wd / "MC_ExprPrint.cfg", constants=consts, invariants=["RefRoundTrip", "InBound"])
-    r = ctx.tlc(wd, "MC_ExprPrint", workers=rig.NCPU, timeout=1700, coverage=False, dump=[str(wd / "states.dump")])
-    if not r.ok:
-        if r.invariant_violated:
-            raise Infra("the REFERENCE printer/parser of ExprPrint.tla is not a round trip (spec bug): %s/MC_ExprPrint.out\n" % wd + rig.tail(r.out, 30))
-        raise Infra(f"MC_ExprPrint failed: {wd}/MC_ExprPrint.out\n" + rig.tail(r.out, 30))
-    states = read_dump(wd / "states.dump")
-    if len(states) != r.distinct:
-        raise Infra(f"dump has {len(states)} states, TLC reported {r.distinct}")
+    states, distinct, generated, wall, never = [], 0, 0, 0.0, []
+    cfgs = bounds(ctx)
+    for n, consts in enumerate(cfgs):
+        wd = ctx.stage(f"mc{n}", FAMS)
+        rig.write_cfg(wd / "MC_ExprPrint.cfg", constants=consts, invariants=["RefRoundTrip", "InBound"])
+        r = ctx.tlc(wd, "MC_ExprPrint", workers=rig.NCPU, timeout=1700, coverage=not ctx.quick, dump=[str(wd / "states.dump")])
+        if not r.ok:
+            if r.invariant_violated:
+                raise Infra("the REFERENCE printer/parser of ExprPrint.tla is not a round trip (spec bug): %s/MC_ExprPrint.out\n" % wd + rig.tail(r.out, 30))
+            raise Infra(f"MC_ExprPrint failed: {wd}/MC_ExprPrint.out\n" + rig.tail(r.out, 30))
+        st = read_dump(wd / "states.dump")
+        if len(st) != r.distinct:
+            raise Infra(f"dump has {len(st)} states, TLC reported {r.distinct}")
+        states += st
+        distinct, generated, wall = distinct + r.distinct, generated + r.generated, wall + r.wall
+        never += r.coverage_zero() if not ctx.quick else []
+    seen, uniq = set(), []
+    for s in states:
+        k = json.dumps(s["t"], sort_keys=True)
+        if k not in seen:
+            seen.add(k)
+            uniq.append(s)
+    states = uniq
     cases = [{"id": i + 1, "mode": "stmt" if s["t"]["k"] in STMT else "expr", "t": s["t"], "pred": s["pred"], "src": s["src"]}
              for i, s in enumerate(states)]
     pred = {}
@@ -139,12 +157,14 @@ def model_check(ctx):
         for k1, k2 in (p["pairs"] if p["cls"] == "violation" else [("-", "-")] if p["cls"] == "elided" else []):
             key = (p["cls"], k1, k2)
             pred[key] = pred.get(key, 0) + 1
-    ctx.cov.update(states=r.distinct, transitions=r.generated, mc_wall_s=round(r.wall, 1),
+    ctx.cov.update(states=distinct, transitions=generated, mc_wall_s=round(wall, 1), distinct_trees=len(states),
                    mc_invariants=["RefRoundTrip (Parse(Print(t)) = t)", "InBound"],
-                   bounds=json.dumps({k: sorted(v) if isinstance(v, set) else v for k, v in consts.items()}, sort_keys=True),
+                   bounds=json.dumps([{k: sorted(v) if isinstance(v, set) else v for k, v in c.items()} for c in cfgs], sort_keys=True),
                    model_counterexample={"what": "implementation-shaped String model: trees for which Parse(IPr(t)) # t (diagnostic, replayed below)",
                                          "trees": sum(1 for s in states if s["pred"]["cls"] != "ok"),
                                          "signatures": sorted("%s %s->%s x%d" % (k + (n,)) for k, n in pred.items())})
+    if not ctx.quick:
+        ctx.cov["actions_never_taken"] = never
     return cases, pred
 
 
